@@ -351,8 +351,10 @@ class UpnpProfileDevice:
                 # Resubscribe existing subscriptions
                 await self._async_resubscribe_services(now)
             else:
-                # Subscribe to services we are interested in
-                for service in self.profile_device.services.values():
+                # Subscribe to services we are interested in, also those of
+                # embedded devices (the profile resolves its services through
+                # find_service(), which descends into embedded devices)
+                for service in self.profile_device.all_services:
                     if not self._interesting_service(service):
                         continue
 
